@@ -36,6 +36,8 @@ class Result:
         self.playback = []  # list of (kind, description, test_name, code)
         self.unwind_failed = False
         self.unsupported = []
+        self.cached = False
+        self.decided_at = None
 
     def to_json(self):
         return {
@@ -44,6 +46,7 @@ class Result:
             "stubs": self.stubs, "symex_s": self.symex_s, "solver_s": round(self.solver_s, 3),
             "kani_verification_s": self.verif_s, "wall_s": round(self.wall_s, 1),
             "unwinding_assertion_failed": self.unwind_failed,
+            "reused_verdict": self.cached, "decided_at": self.decided_at,
         }
 
 
@@ -110,6 +113,69 @@ def parse(text, res):
 
 
 _QUAL = {}
+_TREE_HASH = {}
+
+
+def tree_hash(variant_key):
+    """Content hash of everything a verdict depends on: /repo sources, the
+    harness tree, this framework's code, the overlay variant, the Kani version."""
+    import hashlib
+    if variant_key in _TREE_HASH:
+        return _TREE_HASH[variant_key]
+    h = hashlib.sha256()
+    verif = os.path.dirname(os.path.dirname(os.path.abspath(__file__)))
+    repo = os.environ.get("VERIF_REPO", "/repo")
+    roots = [os.path.join(repo, "src"), os.path.join(verif, "harness"), os.path.join(verif, "vlib")]
+    files = [os.path.join(repo, "Cargo.toml"), os.path.join(repo, "Cargo.lock")]
+    for r in roots:
+        for dp, dn, fn in os.walk(r):
+            dn.sort()
+            for f in sorted(fn):
+                if f.endswith(".pyc"):
+                    continue
+                files.append(os.path.join(dp, f))
+    for f in files:
+        h.update(f.encode())
+        try:
+            h.update(open(f, "rb").read())
+        except OSError:
+            h.update(b"<missing>")
+    h.update(repr(variant_key).encode())
+    h.update(b"kani-0.68.0")
+    _TREE_HASH[variant_key] = h.hexdigest()
+    return _TREE_HASH[variant_key]
+
+
+def cache_path(name, variant_key, flags):
+    verif = os.path.dirname(os.path.dirname(os.path.abspath(__file__)))
+    d = os.path.join(verif, "build", "cache")
+    os.makedirs(d, exist_ok=True)
+    import hashlib
+    k = hashlib.sha256((tree_hash(variant_key) + "|" + name + "|" + repr(flags)).encode()).hexdigest()[:32]
+    return os.path.join(d, "%s-%s.json" % (name, k))
+
+
+def cache_load(path):
+    import json
+    try:
+        d = json.load(open(path))
+    except Exception:
+        return None
+    r = Result(d["name"])
+    for k, v in d.items():
+        setattr(r, k, v)
+    r.cached = True
+    return r
+
+
+def cache_store(path, r):
+    import json
+    if r.status not in ("success", "failed"):
+        return
+    d = {k: getattr(r, k) for k in ("name", "status", "reason", "failed", "covers", "stubs", "n_checks", "n_failed",
+                                    "symex_s", "solver_s", "verif_s", "wall_s", "log", "unwind_failed")}
+    d["decided_at"] = time.strftime("%Y-%m-%dT%H:%M:%SZ", time.gmtime())
+    json.dump(d, open(path, "w"))
 
 
 def qualify(name):
